@@ -3,10 +3,10 @@
    correspondence check runs these against the implementation. *)
 Require Import Model.Base Model.Ante.
 
-Definition cur_unwraps : wrapper -> bool := unwraps_authz_only.
+Definition cur_unwraps : wrapper -> bool := unwraps_all.
 Definition cur_stk_decorator := stk_decorator cur_unwraps.
 Definition cur_wd_decorator := wd_decorator cur_unwraps.
-Definition cur_comm_decorator := comm_decorator_legacy cur_unwraps.
+Definition cur_comm_decorator := comm_decorator cur_unwraps.
 
 Require Import Model.Validate.
-Definition cur_setpower_validate := setpower_validate_legacy.
+Definition cur_setpower_validate := setpower_validate.
